@@ -326,6 +326,50 @@ static void check_reset_equals_new(int n, size_t i, size_t j, uint64_t statekey)
 	}
 }
 
+/* a parser that has just returned a value must be ready for the next one: without any reset the
+ * probes must behave as on a new parser (documented streaming use of json_tokener_parse_ex) */
+static uint64_t *seen_success_states;
+static long n_seen_success;
+static void check_success_leaves_ready(int n, size_t i, size_t j, uint64_t statekey)
+{
+	if (!seen_success_states)
+		seen_success_states = calloc((size_t)1 << 18, sizeof(uint64_t));
+	statekey = mc_hash(&statekey, sizeof statekey, (uint64_t)cur_flags * 7919u + (uint64_t)cur_depth + 99);
+	if (!statekey)
+		statekey = 1;
+	if (n_seen_success < ((long)3 << 16))
+	{
+		uint64_t h = statekey & (((uint64_t)1 << 18) - 1);
+		while (seen_success_states[h])
+		{
+			if (seen_success_states[h] == statekey)
+				return;
+			h = (h + 1) & (((uint64_t)1 << 18) - 1);
+		}
+		seen_success_states[h] = statekey;
+		n_seen_success++;
+	}
+	ensure_probe_reference();
+	MC_COUNT("success_states", 1);
+	for (int k = 0; k < NPROBES; k++)
+	{
+		struct json_tokener *tok = new_tok();
+		bring(tok, n);
+		struct outcome o;
+		do_call(tok, i, j, &o);
+		probe_call(tok, probes[k], &o);
+		if (!same_outcome(&o, &probe_fresh[k]))
+		{
+			char a[96], b[96];
+			path_str(n, j);
+			mc_violation("stream-resume-differs-from-fresh", "after the calls cut at %s returned a value, the next call on %s gives %s; a new parser gives %s", cur_path, probes[k],
+			             oc_str(&o, a, sizeof a), oc_str(&probe_fresh[k], b, sizeof b));
+		}
+		json_tokener_free(tok);
+		MC_COUNT("probes", 1);
+	}
+}
+
 static int opt_reset_probes, opt_streams = 1, opt_mode; /* mode 0 c03, 1 c04, 2 c15 */
 static uint64_t seen_stream_states[256];
 static size_t seen_stream_end[256];
@@ -460,6 +504,8 @@ static void explore_text_inner(void)
 				json_tokener_free(tok);
 				tok = NULL;
 				check_stream(n, i, j, &o);
+				if (opt_reset_probes)
+					check_success_leaves_ready(n, i, j, o.key);
 			}
 			if (tok)
 				json_tokener_free(tok);
@@ -1007,6 +1053,34 @@ static void fam_depth(void)
 		}
 }
 
+/* ---- family: a NUL byte inside the length, at every position of small documents (with comments,
+ * nesting, strings) followed by more text: the scanner meets its end-of-text byte in every state,
+ * at every depth, and the stream check then resumes on what follows ---- */
+static void fam_nul_inside(void)
+{
+	cur_fam = "nul-inside";
+	static const char *base[] = {"[1/*c*/,2]", "{\"a\":1/*c*/}", "[1//c\n,2]", "[[2]/*c*/]", "{\"a\":[1]/*x*/,\"b\":2}", "\"ab\"", "[1,2]", "{\"a\":{\"b\":1}}",
+	                             "[true /*c*/ ]", " [null]", "/*c*/[1]", "[\"s\"/*c*/]", "[1.5e3/*c*/,{}]", "[-7//x\n]"};
+	for (unsigned b = 0; b < sizeof base / sizeof base[0]; b++)
+	{
+		size_t n = strlen(base[b]);
+		for (size_t pos = 0; pos <= n; pos++)
+		{
+			if (mc_deadline())
+				return;
+			memcpy(T, base[b], pos);
+			T[pos] = 0;
+			memcpy(T + pos + 1, base[b] + pos, n - pos);
+			TL = n + 1;
+			for (int f = 0; f < nflagsets; f += (mc_tier ? 1 : 2))
+			{
+				cur_flags = flagsets[f];
+				explore_text();
+			}
+		}
+	}
+}
+
 static void enumerate(void)
 {
 	const char *mode = mc_opt("mode", "c03");
@@ -1026,6 +1100,8 @@ static void enumerate(void)
 		opt_reset_probes = 1;
 		opt_streams = 1;
 	}
+	if (!*only || !strcmp(only, "nul"))
+		fam_nul_inside();
 	if (!*only || !strcmp(only, "docs"))
 		fam_docs();
 	if (!*only || !strcmp(only, "scanners"))
